@@ -57,40 +57,112 @@ def qfeatures(q):
     return fs
 
 
+def npath_py(loc):
+    """RFC 9535 2.7 Normalized Path of a location (address-derived, from the harness)"""
+    out = '$'
+    for st in loc:
+        if 'i' in st: out += '[%d]' % st['i']
+        else:
+            k = ''.join(map(chr, st['k'])); e = ''
+            for ch in k:
+                o = ord(ch)
+                if ch == "'": e += "\\'"
+                elif ch == '\\': e += '\\\\'
+                elif o == 8: e += '\\b'
+                elif o == 12: e += '\\f'
+                elif o == 10: e += '\\n'
+                elif o == 13: e += '\\r'
+                elif o == 9: e += '\\t'
+                elif o < 0x20: e += '\\u%04x' % o
+                else: e += ch
+            out += "['" + e + "']"
+    return out
+
+
+def c03_table(r):
+    """location -> set of (path, requery ok) reported for it"""
+    t = {}
+    for e in items_of(r):
+        t.setdefault(key(e['l']), set()).add((''.join(map(chr, e['p'])), bool(e.get('rq', True))))
+    return t
+
+
+def c09_table(r):
+    t = {}
+    for e in items_of(r): t.setdefault(key(e['l']), set()).add(bool(e.get('rf', True)))
+    return t
+
+
+def c03_self_check(r):
+    """C03 on the real result alone: every path is the Normalized Path of the node's (address-derived) location, re-query
+    returns exactly that node, and two results share a path exactly when they are the same node"""
+    seen = {}
+    for e in r['ok']:
+        if e['l'] == 'NOTFOUND': return 'result value is not a node of the document'
+        p = ''.join(map(chr, e['p']))
+        if p != npath_py(e['l']): return 'path is not the Normalized Path of the node'
+        if not e.get('rq', True): return 're-query of the reported path does not return exactly that node'
+        if seen.setdefault(p, key(e['l'])) != key(e['l']): return 'two different nodes share one path'
+    return None
+
+
+def status_class(r):
+    st = status_of(r)
+    return st if st in ('ok', 'err') else ('crash:' + st)
+
+
+def corr_differs(prop, r, impl):
+    """does the real crate differ from the Lean model, through the projection this property is about?"""
+    if prop in ('C08',): return status_class(r) != status_class(impl)
+    if prop in ('C12',): return False          # C12 compares the real entry points / repetitions with each other
+    if prop in ('C03', 'C09'):
+        if status_of(r) != 'ok' or status_of(impl) != 'ok': return status_class(r) != status_class(impl)
+        a, b = (c03_table(r), c03_table(impl)) if prop == 'C03' else (c09_table(r), c09_table(impl))
+        return any(not (a[l] <= b[l]) for l in a if l in b)      # every path the crate reports for a node is one the model reports for it
+    return proj_eval(prop, r) != proj_eval(prop, impl)
+
+
 def judge_eval(ctx, case, r, m):
-    """-> (verdict, detail) with verdict in ok | skip:<why> | corr | known:<ids> | viol ; corr can accompany others via detail"""
+    """verdict: ok | skip:<why> | known | viol ; corr = real differs from the model through the property's projection"""
     prop = ctx.prop
     out = {'corr': False, 'verdict': 'ok', 'kf': [], 'nontrivial': False}
     if 'badjson' in r or 'badjson' in m:
         out['verdict'] = 'skip:badjson'; return out
-    pr = proj_eval(prop, r)
     flags = m.get('flags') or {}
     if flags.get('regex_unsupported'):
         out['verdict'] = 'skip:regex_unsupported'; return out
     if flags.get('float_overflow'):
-        out['verdict'] = 'skip:float_literal_beyond_f64'; return out
-    pi = proj_eval(prop, m['impl'])
-    if pr != pi: out['corr'] = True
+        out['verdict'] = 'skip:number_literal_outside_exact_f64_domain'; return out
+    out['corr'] = corr_differs(prop, r, m['impl'])
+    pr = proj_eval(prop, r)
     out['nontrivial'] = pr[0] == 'ok' and len(pr[1]) > 0
     # crashes are violations of whatever property is being looked at (and of C08)
     if pr[0] == 'status' and pr[1] in ('panic', 'abort', 'timeout', 'docchanged'):
         out['verdict'] = 'viol'; out['why'] = pr[1]; return out
-    if prop == 'C12' and r.get('entrypoints_agree') is False:
-        out['verdict'] = 'viol'; out['why'] = 'entry points disagree'; return out
+    if prop == 'C12':
+        if r.get('entrypoints_agree') is False: out['verdict'] = 'viol'; out['why'] = 'entry points disagree'
+        return out
     rfc = m.get('rfc')
-    if prop in ('C08', 'C12'):
-        # evaluating a successfully parsed query always succeeds: real result must be ok or (parse) err, nothing else
+    if prop == 'C08':
+        # the only source of Err is an invalid query string: whatever the model parser accepts must evaluate to Ok
         return out
     if rfc in ('invalid', 'unjudged', None):
         out['verdict'] = 'skip:rfc_' + str(rfc) if not out['corr'] else 'ok'
         return out
-    ps = proj_eval(prop, m['spec'])
-    if pr != ps:
+    if prop == 'C03':
+        why = c03_self_check(r) if status_of(r) == 'ok' else None
+        differs = why is not None
+    elif prop == 'C09':
+        differs = status_of(r) == 'ok' and any(not e.get('rf', True) for e in r['ok'])
+        why = 'a path returned by a query, fed back to reference(), does not yield the node it was reported for'
+    else:
+        differs = pr != proj_eval(prop, m['spec']); why = 'real != spec'
+    if differs:
         in_class = [k for k in ctx.my_kf if k['class'] in KF_FLAG and KF_FLAG[k['class']](flags, case)]
         if in_class and not out['corr']:
             out['verdict'] = 'known'; out['kf'] = in_class
         else:
-            out['verdict'] = 'viol'; out['why'] = 'real != spec'
+            out['verdict'] = 'viol'; out['why'] = why
     return out
 
 
@@ -136,7 +208,7 @@ def kf_lines(ctx):
     return out
 
 
-def corpus_lines(name):
+def corpus_lines(name, prop=None):
     p = os.path.join(ROOT, 'corpus', name)
     if not os.path.exists(p): return []
     out = []
@@ -144,6 +216,7 @@ def corpus_lines(name):
         l = l.strip()
         if not l or l.startswith('#'): continue
         c = json.loads(l)
+        if prop and 'props' in c and prop not in c['props']: continue
         if 'doc' in c and 'tdoc' not in c: c['tdoc'] = tag(c['doc'])
         if 'new' in c and 'tnew' not in c: c['tnew'] = tag(c['new'])
         if 'loc' in c and 'tloc' not in c:
@@ -154,7 +227,11 @@ def corpus_lines(name):
 
 # ------------------------------------------------------------------------------------------------ parse
 def judge_parse(ctx, s, r, m):
-    out = {'corr': norm(r) != norm(m['impl']), 'verdict': 'ok'}
+    if ctx.prop in ('C06', 'C07', 'C08'):
+        scope = {'C06': m['rfc'] == 'valid', 'C07': m['rfc'] == 'invalid', 'C08': True}[ctx.prop]
+        out = {'corr': scope and status_class(r) != status_class(m['impl']), 'verdict': 'ok'}
+    else:
+        out = {'corr': norm(r) != norm(m['impl']), 'verdict': 'ok'}
     st = status_of(r)
     acc = st == 'ok'
     if st in ('panic', 'abort', 'timeout'):
@@ -280,8 +357,7 @@ def hist_suite(ctx, name, lines, res):
                 seen.setdefault(k, o)
         if why:
             res.violations.append({'suite': name, 'mode': 'hist', 'case': c, 'real': r, 'model': m, 'why': why}); info['violations'] += 1; continue
-        if norm(r.get('seq')) != norm(m.get('seq')):
-            res.corr_fail.append({'suite': name, 'mode': 'hist', 'case': c, 'real': r, 'model': m}); info['corr_fail'] += 1
+        if norm(r.get('seq')) != norm(m.get('seq')): res.stats['info_seq_differs_from_model'] += 1   # informational: the function itself is C01's business
         res.nontrivial.add(chash(c))
         if len(res.samples) < 2: res.samples.append({'suite': name, 'queries': c['queries'][:4], 'ops': c['ops'][:8], 'threads': c.get('threads')})
     res.suite_info.append({'suite': name, **info})
@@ -324,13 +400,16 @@ def group_suite(ctx, name, lines, res):
         res.stats['cases'] += 1; info['spellings'] += 1
         if (m.get('flags') or {}).get('regex_unsupported'): continue
         pr = proj_eval('C13', r); pi = proj_eval('C13', m['impl'])
-        if pr != pi: res.corr_fail.append({'suite': name, 'mode': 'eval', 'case': c, 'real': r, 'model': m}); info['corr_fail'] += 1
-        groups[c['group']].append((c, r, m, pr))
+        if pr != pi: res.stats['info_spelling_differs_from_model'] += 1     # informational: the function itself is C01's business
+        groups[c['group']].append((c, r, m, pr, pi))
     for g, members in groups.items():
         info['groups'] += 1
         base = members[0]
         kinds = set(key(x[3]) for x in members)
         if any(x[3][0] == 'ok' and x[3][1] for x in members): res.nontrivial.add(chash([base[0]['doc']] + sorted(x[0]['q'] for x in members)))
+        # correspondence through C13's projection: does the model agree on whether the spellings agree?
+        if (len(kinds) > 1) != (len(set(key(x[4]) for x in members)) > 1):
+            res.corr_fail.append({'suite': name, 'mode': 'group', 'case': {'doc': base[0]['doc'], 'spellings': [x[0]['q'] for x in members]}, 'real': [x[1] for x in members][:2], 'model': base[2]}); info['corr_fail'] += 1
         if len(kinds) > 1:
             other = next(x for x in members if key(x[3]) != key(base[3]))
             res.violations.append({'suite': name, 'mode': 'group', 'case': {'doc': base[0]['doc'], 'tdoc': base[0]['tdoc'], 'q': other[0]['q'], 'q_equivalent': base[0]['q']},
@@ -374,7 +453,7 @@ def run(ctx, round_no=0):
     seed = ctx.seed + 1000 * round_no
     first = round_no == 0
     g = (lambda *a: []) if ctx.opts.get('corpus-only') else gen
-    pre = (kf_lines(ctx) + corpus_lines('eval.jsonl')) if first else []
+    pre = (kf_lines(ctx) + corpus_lines('eval.jsonl', p)) if first else []
     if p in ('C01', 'C02', 'C03'):
         res.rule = ('(query string, document) pairs: known-finding witnesses and regression corpus first, exhaustive small-scope enumeration, structured random '
                     'queries typed against a generated document; compared through the property projection (C01 multiset of (address-derived location, value); '
@@ -383,9 +462,10 @@ def run(ctx, round_no=0):
         if first: eval_suite(ctx, 'small-scope', g('gen_small.py', p, seed, 6000 * S), res)
         eval_suite(ctx, 'random', g('gen_eval.py', seed, 12000 * S), res)
         if p == 'C03': eval_suite(ctx, 'paths-of-all-nodes', g('gen_paths.py', seed, 3000 * S), res)
+        if p == 'C01': parse_suite(ctx, 'parser-ast', g('gen_abnf.py', seed, 5000 * S), res)
     elif p in ('C04', 'C05', 'C10', 'C11', 'C14'):
         n = {'C04': 14000, 'C05': 10000, 'C10': 8000, 'C11': 0, 'C14': 10000}[p] * S
-        if p == 'C04' and S > 1: n = 0
+        if p == 'C04' and S > 3: n = 0
         res.rule = {'C04': 'operand-pair table: value universe squared x 6 operators x operand forms (node, literal, nothing, root, function result)',
                     'C05': 'random formulas (!, &&, ||, parentheses, nested filters) over 15 atoms x valuation documents incl. empty/falsy member values',
                     'C10': 'length/count/value argument universe of every JSON type + match/search over dialect patterns; plus raw (pattern, subject) pairs',
@@ -395,7 +475,6 @@ def run(ctx, round_no=0):
         eval_suite(ctx, 'witnesses+corpus', pre, res) if pre else None
         eval_suite(ctx, 'targeted', g('gen_targeted.py', p.lower(), seed, n), res)
         if p == 'C10': regex_suite(ctx, 'regex-dialect', g('gen_regex.py', seed, 8000 * S), res)
-        if p in ('C05',): eval_suite(ctx, 'random', g('gen_eval.py', seed, 4000 * S), res)
     elif p in ('C06', 'C07'):
         res.rule = ('query strings: ABNF-derived sentences with random optional blanks, both quote styles, escapes, number formats; single-edit mutants; '
                     'random token soup. Oracle Rfc.verdict (ABNF + validity rules). non-trivial = distinct string that is valid (C06) / invalid (C07)')
@@ -406,7 +485,7 @@ def run(ctx, round_no=0):
         res.rule = ('all parser strings of C06/C07 plus integer extremes in every integer position, scalar/empty documents and nesting ladders, run in isolated '
                     'worker processes with overflow checks; outcome must be Ok/Err (no panic, abort, timeout); evaluation of a parsed query must be Ok')
         if first: parse_suite(ctx, 'corpus', corpus_lines_raw('parse.txt'), res)
-        if first: eval_suite(ctx, 'corpus-eval', corpus_lines('eval.jsonl'), res)
+        if first: eval_suite(ctx, 'corpus-eval', corpus_lines('eval.jsonl', p), res)
         parse_suite(ctx, 'abnf-sentences+mutants', g('gen_abnf.py', seed, 8000 * S), res)
         parse_suite(ctx, 'token-soup', g('gen_parse.py', seed, 8000 * S), res)
         eval_suite(ctx, 'extremes', g('gen_extreme.py', seed, 6000 * S), res)
@@ -416,6 +495,8 @@ def run(ctx, round_no=0):
         res.rule = ('(document, path, new value): Normalized Path of every kind of node (names with / ~ quotes digits blanks), one-step-off absent locations, '
                     'non-path queries; compared: found node by address, write result, whole document after the write; spec = lens laws on locations')
         if first and corpus_lines('ref.jsonl'): ref_suite(ctx, 'corpus', corpus_lines('ref.jsonl'), res)
+        if first: eval_suite(ctx, 'kf-witnesses', kf_lines(ctx), res)
+        eval_suite(ctx, 'query-paths-fed-back', g('gen_eval.py', seed, 6000 * S) + g('gen_small.py', p, seed, 3000 * S), res)
         ref_suite(ctx, 'ref', g('gen_ref.py', seed, 12000 * S), res)
     elif p == 'C12':
         res.rule = ('histories: seeded sequences of evaluations interleaving several queries and documents, each also by pre-parsed query and from N threads '
